@@ -40,6 +40,11 @@ def gen_case(rng, ctx):
     n = rng.choice([0, 1, 2, 3]) if rng.random() < 0.08 else rng.randint(4, 60 if not ctx.thorough else 200)
     rows, meta = gen.gen_stream(rng, n)
     tf, tfs = gen.gen_timeframe(rng, meta["step"])
+    if rows and rows[0]["ts"] >= 0 and rng.random() < 0.15:
+        us = rng.choice([1, 500000, 700000, 999999])      # a fraction of a second on every timestamp
+        for r in rows:
+            r["us"] = us
+        meta["subsecond"] = True
     init, chunks = gen.gen_chunks(rng, rows)
     ops = []
     for ch in chunks:
